@@ -34,6 +34,8 @@ func c06Operands() []c06Operand {
 		{"env", "T", "%vt"}, {"env", "F", "%vf"}, {"env", "E", "%ve"}, {"env", "NB", "%vn"}, {"env", "M", "%vm"}, {"env", "T", "%vft"}, {"env", "F", "%vff"},
 		{"env", "M", "%vmb"},
 		// collections nested three and four deep: the value is what remains when every level is spliced
+		// single non-Boolean elements that have no readable System value: still one non-Boolean item
+		{"env", "NB", "%vq"}, {"env", "NB", "%vdn"}, {"env", "NB", "%vcx"},
 		{"env", "F", "%vn3f"}, {"env", "T", "%vn3t"}, {"env", "E", "%vn3e"}, {"env", "M", "%vn3m"}, {"env", "NB", "%vn4n"},
 		// function results
 		{"function", "T", "Patient.active.first()"}, {"function", "F", "Patient.active.not()"}, {"function", "E", "Patient.name.given.skip(5)"},
@@ -79,6 +81,9 @@ func c06Env() []fhirpath.EvaluateOption {
 		evalopts.EnvVariable("vft", &dtpb.Boolean{Value: true}),
 		evalopts.EnvVariable("vff", &dtpb.Boolean{Value: false}),
 		evalopts.EnvVariable("vmb", system.Collection{system.Boolean(true), system.Boolean(true)}),
+		evalopts.EnvVariable("vq", &dtpb.Quantity{Code: &dtpb.Code{Value: "mg"}, Unit: &dtpb.String{Value: "mg"}}),
+		evalopts.EnvVariable("vdn", &dtpb.Decimal{Value: "n/a"}),
+		evalopts.EnvVariable("vcx", &dtpb.Period{}),
 		evalopts.EnvVariable("vn3f", system.Collection{system.Collection{system.Collection{system.Boolean(false)}}}),
 		evalopts.EnvVariable("vn3t", system.Collection{system.Collection{}, system.Collection{system.Collection{&dtpb.Boolean{Value: true}}}}),
 		evalopts.EnvVariable("vn3e", system.Collection{system.Collection{system.Collection{}, system.Collection{system.Collection{}}}}),
